@@ -336,6 +336,44 @@ def exCarry2 : List XTok :=
 example : xmlMinify ⟨false⟩ exCarry = "<r>a]]&gt;b</r>".toList ∧ xmlMinify ⟨true⟩ exCarry2 = "<r>a]]&gt;b</r>".toList ∧
     rawCdEnd [XTok.text ['a', ']'], .text [']'], .text ['>', 'b']] = true := by decide
 
+/-! ## processing instructions (/repo ce8fb25, 59fe76b) -/
+
+/-- **pi_attr_verbatim** (full): inside a processing instruction every well-formed pseudo-attribute value is
+written byte for byte — references are not decoded (`?&gt;` stays), the quotes stay. -/
+theorem pi_attr_verbatim (v : List Char) (hv : WfAttrVal v) : attrOutPI v = v := attrOutPI_id v hv
+
+/-- **pi_tokens_verbatim** (full): the tokens of a processing instruction — pseudo-attributes with well-formed
+values and words of free-form data, up to `?>` — are emitted one to one and unchanged, in every state of the loop;
+behind `?>` the loop continues outside a processing instruction with the same `omitSpace`. -/
+theorem pi_tokens_verbatim (o : XmlOpts) (om : Bool) (body rest : List XTok)
+    (hb : ∀ x ∈ body, (∃ n v, x = .attr n v ∧ WfAttrVal v) ∨ ∃ d n, x = .attrBare d n) :
+    ∀ br, emitGo o om br true 0 (body ++ .startTagClosePI :: rest) =
+      body ++ .startTagClosePI :: emitGo o om 0 false 0 rest := by
+  induction body with
+  | nil => intro br; simp [emitGo]
+  | cons x body ih =>
+    intro br
+    have hx := hb x (by simp)
+    have ih' := ih (fun y hy => hb y (by simp [hy]))
+    rcases hx with ⟨n, v, rfl, hv⟩ | ⟨d, n, rfl⟩
+    · simp only [List.cons_append, emitGo, if_true, attrOutPI_id v hv, ih']
+    · simp only [List.cons_append, emitGo, if_true, ih']
+
+/-- tokens of `<?p x="?&gt;"?>` (a decoded reference would end the instruction early) and of `<?p a>b?>`,
+`<?p ?/>?>` (the dependency lexer reads `>` and `/>` in the data like the end of a tag and drops the white space in
+front of it; the loop writes a space there, so that the target or a `?` never touches it) -/
+def exPiRef : List XTok :=
+  [.startTagPI ['p'], .attr ['x'] ['"', '?', '&', 'g', 't', ';', '"'], .startTagClosePI]
+def exPiGt : List XTok :=
+  [.startTagPI ['p'], .attrBare [' ', 'a'] ['a'], .startTagClose, .text ['b', '?', '>']]
+def exPiVoid : List XTok :=
+  [.startTagPI ['p'], .attrBare [' ', '?'] ['?'], .startTagCloseVoid, .text ['?', '>']]
+
+example : xmlMinify ⟨false⟩ exPiRef = "<?p x=\"?&gt;\"?>".toList ∧ xmlMinify ⟨false⟩ exPiGt = "<?p a >b?>".toList ∧
+    xmlMinify ⟨false⟩ exPiVoid = "<?p ? />?>".toList ∧
+    xmlMinify ⟨false⟩ [.startTagPI ['p'], .startTagClose, .text ['?', '>']] = "<?p >?>".toList ∧
+    noCloseInPI false exPiRef = true ∧ noCloseInPI false exPiGt = false := by decide
+
 /-- **xml_nesting** (full): element nesting is preserved — if in the input every end tag closes the innermost
 open element under its name, `/>` closes the element just opened and nothing stays open, the same holds for the
 emitted tokens (in particular after collapsing `<a></a>` to `<a/>`). -/
